@@ -422,4 +422,24 @@ def vecsAfter (T : Id → Option Nat) : List VChange → Id → Option Nat
   | [], i => T i
   | c :: rest, i => vecsAfter (fun j => if j = c.id then c.vec else T j) rest i
 
+/-- one write request to the shard: the batch, with the oracles of the index run it triggers -/
+structure SStep (D : Type) where
+  ds : Dists D
+  ord : List Id
+  ops : List POp
+
+/-- a history of write requests on the shard: the points bucket and the graph move together; a request
+rejected by the points bucket / the dispatcher or by the index leaves BOTH unchanged (one bbolt transaction,
+rolled back; the shared cache is scrapped) -/
+def shardRun {D : Type} [LT D] [DecidableRel (α := D) (· < ·)] (cfg : Cfg) (vp : Path) :
+    List (SStep D) → PStore × Graph → PStore × Graph
+  | [], s => s
+  | st :: rest, (S, g) =>
+    match pbatch vp st.ops S with
+    | .error _ => shardRun cfg vp rest (S, g)
+    | .ok (S', cs) =>
+      match apply cfg st.ds st.ord g (cs.map VChange.toChange) with
+      | .error _ => shardRun cfg vp rest (S, g)
+      | .ok g' => shardRun cfg vp rest (S', g')
+
 end Sema.C10
